@@ -306,7 +306,7 @@ func genWire(g *genCtx) {
 			}
 			nr := 25
 			if g.thorough() {
-				nr = 1200
+				nr = 2500
 			}
 			for i := 0; i < nr; i++ {
 				rt(tn, defaultAssign(r, tn, true))
